@@ -2833,6 +2833,10 @@ func setFNext(cond, next *node) {
 		cond.action = aBranch
 		cond.gen = branch
 		cond.fnext = next
+	} else if _, folded := constBool(cond); folded && cond.kind != basicLit && cond.kind != parenExpr {
+		// A condition folded to a constant at compile time also needs a branch operation.
+		cond.gen = branch
+		cond.fnext = next
 	}
 	if cond.kind == parenExpr {
 		setFNext(cond.lastChild(), next)
